@@ -320,7 +320,10 @@ func ruleCLIDispatch(only ...string) func(p *Prog, l *Ledger, tier string) {
 			case exp.method != "" && FnName(ops[0].Call.StaticCallee()) != exp.method:
 				problems = append(problems, "calls "+FnName(ops[0].Call.StaticCallee())+" instead of "+exp.method)
 			}
-			if exp.method != "" && len(ops) == 1 && len(problems) == 0 {
+			if exp.method != "" && len(ops) == 1 && len(problems) == 0 && pairSwapOK(ops[0], exp.flags) {
+				// the two (actual, desired) reference pairs may be exchanged as pairs: the map through two
+				// points does not depend on their order
+			} else if exp.method != "" && len(ops) == 1 && len(problems) == 0 {
 				for i, fv := range exp.flags {
 					if i+1 >= len(ops[0].Call.Args) || flagVarOf(ops[0].Call.Args[i+1]) != fv {
 						got := "?"
@@ -460,4 +463,35 @@ func ruleWritersNilTolerant(p *Prog, l *Ledger, tier string) {
 		}
 	}
 	l.Min(rule, n, 100)
+}
+
+// pairSwapOK: the four arguments are phis of one block whose edges carry, position by position,
+// either (a1,d1,a2,d2) or (a2,d2,a1,d1) – the reference pairs exchanged as pairs.
+func pairSwapOK(c *ssa.Call, flags []string) bool {
+	if len(flags) != 4 || len(c.Call.Args) < 5 {
+		return false
+	}
+	var phis [4]*ssa.Phi
+	for i := 0; i < 4; i++ {
+		ph, ok := c.Call.Args[i+1].(*ssa.Phi)
+		if !ok {
+			return false
+		}
+		phis[i] = ph
+		if ph.Block() != phis[0].Block() || len(ph.Edges) != len(phis[0].Edges) {
+			return false
+		}
+	}
+	for e := range phis[0].Edges {
+		var got [4]string
+		for i := 0; i < 4; i++ {
+			got[i] = flagVarOf(phis[i].Edges[e])
+		}
+		straight := got[0] == flags[0] && got[1] == flags[1] && got[2] == flags[2] && got[3] == flags[3]
+		swapped := got[0] == flags[2] && got[1] == flags[3] && got[2] == flags[0] && got[3] == flags[1]
+		if !straight && !swapped {
+			return false
+		}
+	}
+	return true
 }
